@@ -492,6 +492,10 @@ def orphan_scenarios(seed, quick):
         steps += [call(1, op="DeleteTopic", name=T1)]
         if k % 3 == 1:
             steps.append(call(1, op="CreateTopic", name=T1))
+        if k % 2 == 0:
+            # a consumer that starts waiting on the orphan (S2 has one delivery outstanding, one queued
+            # message is taken first): it gets what comes back at the deadline, not an early empty answer
+            steps += [call(2, op="Pull", sub=S2, max=10, ri=True), start("w", 6, op="Pull", sub=S2, max=10, ri=False), {"do": "settle"}]
         steps += [call(2, op="ModAck", sub=S1, acks=[{"d": 1}], secs=(0, 30, 5)[k % 3]),
                   {"do": "advance", "ms": 9000}, call(3, op="Pull", sub=S1, max=10, ri=True),
                   {"do": "advance", "ms": 7000}, call(3, op="Pull", sub=S1, max=10, ri=True), call(3, op="Pull", sub=S2, max=10, ri=True),
@@ -499,6 +503,8 @@ def orphan_scenarios(seed, quick):
                   call(3, op="GetSub", name=S1)]
         if k % 2:
             steps.append({"do": "sabandon", "h": "s"})
+        else:
+            steps.append({"do": "wait", "h": "w"})
         steps.append({"do": "drain", "c": 9})
         out.append(scn("orphan-%d" % k, steps, seed=seed * 100 + k, phase=(k * 29) % 100))
     return out
@@ -823,8 +829,14 @@ def plan_c09(prop, tier, seed, t0):
                   call(3, op="Publish", topic=T2, msgs=[{"p": "bulk:25"}]),
                   call(4, op="Pull", sub=S1, max=1000, ri=True), call(4, op="Pull", sub=S2, max=1000, ri=True), {"do": "drain", "c": 9}]
         many = scn("c09-many-topics", steps, seed=sd)
+        # one Publish of more than 1000 messages, then more publishes on the same topic: fresh ids
+        bigpub = scn("c09-bigpub", [call(1, op="CreateTopic", name=T1),
+                                    call(1, op="Publish", topic=T1, msgs=[{"p": "bulk:1003"}]),
+                                    call(1, op="Publish", topic=T1, msgs=[{"p": "x1"}, {"p": "x2"}]),
+                                    call(1, op="Publish", topic=T1, msgs=[{"p": "bulk:1000"}]),
+                                    call(1, op="Publish", topic=T1, msgs=[{"p": "x3"}])], seed=sd)
         return [s for s in plan_push.c14_scenarios([], sd, quick, call, scn) if s["id"] == "c14-payloads"] \
-            + inflight_topic_delete_scenarios(sd, quick) + [many]
+            + inflight_topic_delete_scenarios(sd, quick) + [many, bigpub]
     return core_check(prop, tier, seed, t0, over, special=True, explore=[("mixed", 32, 1000)],
                       scen={"quick": 200, "thorough": 3000}, extra_scenarios=extra,
                       thorough={"mc": dict(MaxOps=8, MaxMsgs=4)})
@@ -955,7 +967,7 @@ def plan_c15(prop, tier, seed, t0):
         return [s for s in c06_scenarios(6 if quick else 60, sd)
                 if any(w in s["id"] for w in ("-W1-", "-W2-", "-W3-", "-W4-", "-W5-", "-W10-", "-W11-", "-W12-", "-W14-"))]
     return core_check(prop, tier, seed, t0, over, extra_scenarios=lambda quick, sd: extra(quick, sd) + waiting(quick, sd)
-                      + inflight_delete_scenarios(sd, quick),
+                      + inflight_delete_scenarios(sd, quick) + orphan_scenarios(sd, quick),
                       explore=[("data", 32, 1000), ("consumers", 16, 1000)],
                       thorough={"mc": dict(MaxOps=7, MaxMsgs=5)})
 
@@ -1220,6 +1232,7 @@ def cancel_scenarios(seed, kinds=None, quick=True):
         "Publish": dict(op="Publish", topic=T1, msgs=[{"p": "x1"}, {"p": "x2"}]),
         "PublishBig": dict(op="Publish", topic=T1, msgs=[{"p": "bulk:600"}]),
         "CreateSub": dict(op="CreateSub", name=S2, topic=T1, ack=10),
+        "CreateSubPush": dict(op="CreateSub", name=S2, topic=T1, ack=10, push="http://127.0.0.1:9/x"),
         "DeleteSub": dict(op="DeleteSub", name=S1),
         "DeleteTopic": dict(op="DeleteTopic", name=T1),
         "GetSub": dict(op="GetSub", name=S1),
@@ -1227,7 +1240,7 @@ def cancel_scenarios(seed, kinds=None, quick=True):
     }
     # which actor a request kind goes through first
     target = {"Pull": "sub", "Ack": "sub", "ModAck": "sub", "ModAck30": "sub", "GetSub": "sub", "DeleteSub": "sub",
-              "Publish": "topic", "PublishBig": "topic", "CreateSub": "topic", "DeleteTopic": "topic", "ListTopicSubs": "topic"}
+              "Publish": "topic", "PublishBig": "topic", "CreateSub": "topic", "CreateSubPush": "topic", "DeleteTopic": "topic", "ListTopicSubs": "topic"}
     n = 0
     for kind, callspec in calls.items():
         if kinds and kind not in kinds:
